@@ -73,6 +73,21 @@ class CastCast(RewriteRuleClassBase):
         }
     )
 
+    # Source types whose every value is exactly representable in FLOAT: only then does dropping the
+    # intermediate Cast(to=FLOAT) avoid a second rounding (DOUBLE/INT32/INT64 sources would round twice).
+    _exact_in_float: ClassVar = frozenset(
+        {
+            ir.DataType.FLOAT,
+            ir.DataType.FLOAT16,
+            ir.DataType.BFLOAT16,
+            ir.DataType.INT8,
+            ir.DataType.INT16,
+            ir.DataType.UINT8,
+            ir.DataType.UINT16,
+            ir.DataType.BOOL,
+        }
+    )
+
     def pattern(self, op, x, to, to_ignored):
         return op.Cast(op.Cast(x, to=to_ignored), to=to)
 
@@ -80,6 +95,10 @@ class CastCast(RewriteRuleClassBase):
         check_result = MatchResult()
         type2 = to_ignored.as_int()
         type3 = to.as_int()
+        if x.dtype not in self._exact_in_float:
+            return check_result.fail(
+                f"Source type {x.dtype} is not exactly representable in the intermediate type."
+            )
         if (type2, type3) not in self._allowed_type2_type3:
             return check_result.fail(
                 f"Intermediate cast elimination not recognized as valid from {type2} to {type3}. "
